@@ -78,7 +78,9 @@ func (p *publisher) publishUpdates(reqs requests) {
 	batchedUpdates := make(map[uint64]*pb.KVList)
 	for _, req := range reqs {
 		for _, e := range req.Entries {
-			ids := p.indexer.Get(e.Key)
+			// Match the subscribers' prefixes against the user key. e.Key carries the 8 byte
+			// version suffix, which must not take part in the match.
+			ids := p.indexer.Get(y.ParseKey(e.Key))
 			if len(ids) == 0 {
 				continue
 			}
